@@ -177,6 +177,7 @@ def obligations(tier):
         v("stack", "ExecuteContext::exit_scope", "leaving a scope pops exactly the top frame (never a locked one) and makes the frame below current, values untouched", "vm/src/thread.rs::ExecuteContext::exit_scope"),
         v("stack", "execute_::return", "function return: the function value and everything the callee had on the stack are replaced by the result; with excess arguments the parked record is consumed too and the RESULT is called with exactly its fields in order", "vm/src/thread.rs::execute_ (statements after the instruction loop)"),
         v("stack", "arm::TailCall", "a tail call behaves as return-then-call: the caller's slot receives the new function and arguments (plus pending excess arguments, in order)", T + "TailCall"),
+        v("stack", "arm::GetOffset", "GetOffset(i) replaces the object on top by its i-th field (positional field access; effect 0)", T + "GetOffset"),
         v("stack", "StackFrame::index_from", "frame[start..] is the frame view from start", "vm/src/stack.rs::<StackFrame as Index<RangeFrom<VmIndex>>>::index"),
     ]
     obs += [
